@@ -2779,6 +2779,8 @@ class LinearOperator(object):
         self: Float[LinearOperator, "... #M #N"],
         other: Union[Float[Tensor, "... #M #N"], Float[LinearOperator, "... #M #N"], float],
     ) -> Union[Float[LinearOperator, "... M N"], Float[Tensor, "... M N"]]:
+        if isinstance(other, numbers.Number):
+            return self + (-other)
         return self + other.mul(-1)
 
     def __add__(
